@@ -55,15 +55,32 @@ CLAIMED = {
              "statements about the translation: gen_stack_build_iff, gen_stack_indices_prefix_sums); _check_ishape/_check_oshape "
              "translated and proved equal to zipGuard (gen_guard_agree); _apply axis normalisation (gen_apply_axis_agree) + exact "
              "Gaussian-rational correspondence of random expression trees (incl. malformed ones, wrong-shaped inputs and inputs of "
-             "a different rank) built both in sigpy and in the Lean driver.",
-        note="Trusted: Lean kernel; translator gen_c03 (sequential statement translator _Seq); numpy slicing / slice assignment "
-             "semantics (sliceAx/rowWrite) and the bodies of Hstack/Vstack/Diag._apply (start/end selection, slice tuple, sum / "
-             "assignment) are a hand transcription tied by correspondence and the oracle, not by the translator; the block theorems "
+             "a different rank) built both in sigpy and in the Lean driver. Deepened: the bodies of Linop.apply, Compose._apply, Add._apply, "
+             "Hstack._apply, Vstack._apply, Diag._apply (start/end selection from indices, the slice tuples, sum vs slice assignment, "
+             "ravel / reshape of the mixed None-axis cases, the loop over enumerate(linops) / linops[::-1]) and the constructor guards "
+             "_check_shape_positive, _check_linops_same_ishape/_oshape, _check_compose_linops are translated statement by statement "
+             "(translator T4, class _Apply) into Gen/LinopApply.lean on every run, written in the numpy primitives of Model/C03Np.lean; "
+             "the DRIVER runs these generated definitions (Model/C03Gen.lean), so every correspondence stream compares generated code "
+             "with sigpy. Props/C03Gen.lean: generated guards = model guards and construction is rejected exactly when the model's "
+             "build fails (gen_*_agree, G_*_build_iff, G_build_agree); generated Linop.apply = Op.call for every operator and input "
+             "and accepts exactly the inputs agreeing with ishape on the common prefix (gen_linopApply_eq_call, gen_call_accepts_iff); "
+             "generated Compose._apply = model for all inputs (G_compose_eq); generated Add._apply is the left-to-right numpy sum "
+             "(gen_addApply_sum, G_add_apply); the block theorems restated about the GENERATED bodies (G_hstack_block_row, "
+             "G_vstack_block_col, G_diag_block_diag incl. all four oaxis/iaxis None combinations), via the exchange of the source's "
+             "operand-after-operand slice assignment with the row-wise view (seq_rows, seqAssemble); algebra at the denotation level: "
+             "compose_call ((A*B)(x) = A(B(x)), composite guards add nothing), compose_assoc (+ _build), add_compose_distrib "
+             "((A+B)*C = A*C + B*C on every input), gen_call_shape.",
+        note="Trusted: Lean kernel; translator gen_c03 (_Seq, _Apply); the numpy primitives the generated bodies are written in "
+             "(Model/C03Np.lean: basic slicing incl. too-many-indices IndexError, slice assignment and a + b incl. numpy broadcasting, "
+             "reshape, ravel, empty) and the __init__ wiring of Model/C03Gen.lean (which guard / parameter function is applied to "
+             "which list) are hand-written and validated by the correspondence; the block theorems "
              "assume operand outputs of the advertised shapes with prod(shape) entries (automatic for inputs of the advertised "
-             "rank); numpy broadcasting of off-rank operands and 0-d arrays are not modelled (off-rank inputs are sent through "
-             "Identity/Reshape/scalar chains only). Observation (outside the property's domain, not flagged): the zip guard accepts "
+             "rank); broadcasting in the primitives is executable but no theorem is stated about it; 0-d arrays: accepted by the "
+             "generated Linop.apply, but numpy scalars produced by arithmetic on them (Linop.__call__ of a scalar builds a Compose; the "
+             "translator checks that dispatch literally) are not modelled; adjoint-structure laws ((aA).H, Hstack.H = Vstack(.H), "
+             "Diag.H) are not stated here (adjoints are C01's model). Observation (outside the property's domain, not flagged): the zip guard accepts "
              "inputs whose shape is a proper prefix or an extension of ishape, e.g. Identity([2,3])(zeros(2)) returns shape (2,).",
-        technique="Lean 4 proof over operator-algebra model + translator-generated loops/guards proved equal to it + exact differential correspondence of expression trees",
+        technique="Lean 4 proof over operator-algebra model + translator-generated loops/guards/_apply bodies (proved equal to it or carrying the block theorems themselves) + exact differential correspondence of expression trees run on the generated code",
         design="DESIGN.md §3 C03, §9"),
     "C11": dict(
         text="Lean 4 theorems (Mathlib, real inner-product spaces / R, C): each prox formula the translator extracts from prox.py / thresh.py (Gen/Prox.lean: soft threshold kernel, L1Reg threshold lamda*alpha, clip, l2 mask formula, linf = y - soft, L2Reg closed form with bias and inner prox, Conj's Moreau formula, UnitaryTransform, Stack) is the unique minimiser of 1/2||x-y||^2 + alpha g(x) in the strong form F p + 1/2||p-y||^2 + 1/2||x-p||^2 <= F x + 1/2||x-y||^2 (so minimal and unique), for real and complex data, incl. ball boundaries and bias; projections fix feasible points and are idempotent; l1-ball projection under the KKT certificate (theta >= 0, sum(|y_i|-theta)_+ = eps), which the correspondence verifies exactly for every case of Duchi's search; every nesting returns the input's shape. Tie: Gen/Prox.lean regenerated each run + correspondence of the real Prox classes/thresh functions with the exact Gaussian-rational model (exactly representable inputs, 1e-12; Fraction object arrays by equality). thresh.psd_proj: its body is translator-generated (Gen/Prox.lean psdProjWith over the PsdOps record: Hermitian part, eigh as a parameter, eigenvalue clamp, V diag(w) V^H) and proved (psd_proj_prox, any RCLike field) to be the Frobenius projection onto the PSD cone of an arbitrary square input under the spectral contract of eigh (V^H V = I, V diag(w) V^H = A, w real), via psd_proj_spectral (P PSD, H-P NSD, (H-P)P = 0, Re<H-P,Q-P> <= 0) and psd_proj_skew; Duchi's sort/cumsum index search is proved to return a KKT threshold (duchi_theta over the generated l1projSt/l1projCond; l1_proj_duchi_real/complex: soft_thresh(st[idx], y) is the l1-ball projection; duchiTheta_kkt for the executable model).",
